@@ -162,6 +162,24 @@ Definition ds_rename_key (old new : string) (s : dset) : dset * res unit :=
           dsattrs := dsattrs s; nextid := nextid s |}, Ok tt)
   end.
 
+(* rename_keys(mapper) with several keys: every variable is looked up and removed before any is stored under its new name *)
+Definition rekey (v : dvar) (n : string) : dvar := {| vkey := n; vax := vax v; vvals := vvals v; vattrs := vattrs v |}.
+
+(* the pairs that really rename (old <> new), with the variable found under the old key *)
+Definition moved_vars (m : list (string * string)) (s : dset) : res (list dvar) :=
+  mapM (fun p => match find_var s (fst p) with Some v => Ok (rekey v (snd p)) | None => Err KeyError end)
+       (filter (fun p => negb (String.eqb (fst p) (snd p))) m).
+Definition ds_rename_keys (m : list (string * string)) (s : dset) : dset * res unit :=
+  if negb (forallb (fun p => match find_var s (fst p) with Some _ => true | None => false end) m) then (s, Err KeyError) else
+  match moved_vars m s with
+  | Err e => (s, Err e)
+  | Ok mv =>
+      let olds := map fst (filter (fun p => negb (String.eqb (fst p) (snd p))) m) in
+      let remaining := filter (fun w => negb (mem_str (vkey w) olds)) (dvars s) in
+      ({| heap := heap s; dsax := dsax s; dvars := fold_left put_var mv remaining; dsattrs := dsattrs s; nextid := nextid s |}, Ok tt)
+  end.
+
+
 Inductive dsop :=
 | DSet (k : string) (a : darr)
 | DDel (k : string)
@@ -173,6 +191,7 @@ Inductive dsop :=
 | DSetAxis (r : axref) (k : kind) (labs : list label) (name : option string)
 | DReplaceAxis (r : axref) (nx : axis)
 | DRenameKey (old new : string)
+| DRenameKeys (m : list (string * string))
 | DInit (l : list (string * darr)).      (* Dataset({k: array ...}): align (outer join), then assign in order *)
 
 Definition ds_init (l : list (string * darr)) : dset * res unit :=
@@ -196,6 +215,7 @@ Definition ds_step (s : dset) (o : dsop) : dset * res unit :=
   | DSetAxis r k labs name => ds_set_axis r k labs name s
   | DReplaceAxis r nx => ds_replace_axis r nx s
   | DRenameKey o n => ds_rename_key o n s
+  | DRenameKeys m => ds_rename_keys m s
   | DInit l => ds_init l
   end.
 Definition ds_run (ops : list dsop) (s : dset) : dset := fold_left (fun st o => fst (ds_step st o)) ops s.
